@@ -92,6 +92,9 @@ func (st *ConcState) SetFieldVal(obj ssa.Value, field string, v ssa.Value) {
 	st.fvals[st.fieldKey(obj, field)] = v
 }
 
+// SetAlias: on this exploration v stands for what (ConcCfg.Init: a parameter fixed to a value found elsewhere).
+func (st *ConcState) SetAlias(v, what ssa.Value) { st.alias[v] = what }
+
 // DynOf: what is known about the dynamic type of interface value v on this path.
 func (st *ConcState) DynOf(v ssa.Value) (DynFact, bool) {
 	for k := 0; k < 16 && v != nil; k++ {
@@ -486,6 +489,12 @@ func (st *ConcState) eval(v ssa.Value, d int) (int64, bool) {
 			}
 			a := x.Call.Args[0]
 			for k := 0; k < 8; k++ {
+				if sl, isSl := a.(*ssa.Slice); isSl && sl.Low == nil && sl.High == nil {
+					// the whole of a local array (the argument list of a variadic call)
+					if at, isArr := types.Unalias(deref(sl.X.Type())).Underlying().(*types.Array); isArr {
+						return at.Len(), true
+					}
+				}
 				if n, known := st.IsNil(a); known && n {
 					return 0, true
 				}
@@ -602,6 +611,9 @@ type ConcCfg struct {
 	// InlineAny: static callees with source in the analysed packages (exported ones included) that are explored
 	// inline although they are not helpers in the sense of Eligible.
 	InlineAny func(h *ssa.Function) bool
+	// Devirt: a method invoked through an interface whose dynamic type is evident on the path (the value was wrapped
+	// right there: an option applied by the function that made it) is explored inline when this approves of it.
+	Devirt func(m *ssa.Function) bool
 	// DeferRun names a deferred call that is not explored inline (mu.Unlock(), close(ch)) at the moment it runs.
 	DeferRun func(d *ssa.Defer, st *ConcState) string
 	// SliceLen fixes the length of a slice parameter of the explored function: slices of it with evident bounds are
@@ -1146,6 +1158,38 @@ func ConcPaths(fn *ssa.Function, cfg ConcCfg) (seqs []string, truncated bool) {
 						v = nx
 					}
 					st.fvals[pre+"*"] = v
+				} else if pre, key, isArr := localArrElem(st, x.Addr); isArr {
+					// an element of a local array that never leaves its function (a table literal)
+					st = st.clone()
+					if key == "" {
+						// an index that is not evident: any element may have changed
+						for k := range st.fmem {
+							if strings.HasPrefix(k, pre) {
+								delete(st.fmem, k)
+							}
+						}
+						for k := range st.fvals {
+							if strings.HasPrefix(k, pre) {
+								delete(st.fvals, k)
+							}
+						}
+					} else if kv, ok := st.eval(x.Val, 0); ok {
+						if st.fmem == nil {
+							st.fmem = map[string]int64{}
+						}
+						st.fmem[key] = kv
+						delete(st.fvals, key)
+					} else {
+						delete(st.fmem, key)
+						if st.fvals == nil {
+							st.fvals = map[string]ssa.Value{}
+						}
+						v := x.Val
+						if nx := st.alias[v]; nx != nil {
+							v = nx
+						}
+						st.fvals[key] = v
+					}
 				} else if _, isFA := x.Addr.(*ssa.FieldAddr); isFA {
 					ad := addrKey(st, x.Addr)
 					st = st.clone()
@@ -1275,8 +1319,20 @@ func ConcPaths(fn *ssa.Function, cfg ConcCfg) (seqs []string, truncated bool) {
 						st = ns
 					}
 				} else if ia, isIA := x.X.(*ssa.IndexAddr); isIA && x.Op == token.MUL {
-					// an element of a package-level table that is never written after initialisation
-					if v, found, known := constTableLookup(st, ia.X, ia.Index); known && found {
+					if _, key, isArr := localArrElem(st, ia); isArr && key != "" {
+						if kv, has := st.fmem[key]; has {
+							st = st.clone()
+							st.ints[x] = kv
+						} else if fv, has := st.fvals[key]; has {
+							ns := st.clone()
+							ns.alias[x] = fv
+							if n, ok := st.IsNil(fv); ok {
+								ns.nils[x] = n
+							}
+							st = ns
+						}
+					} else if v, found, known := constTableLookup(st, ia.X, ia.Index); known && found {
+						// an element of a package-level table that is never written after initialisation
 						ns := st.clone()
 						bind(ns, st, x, v)
 						st = ns
@@ -1394,11 +1450,35 @@ func ConcPaths(fn *ssa.Function, cfg ConcCfg) (seqs []string, truncated bool) {
 						h = sc
 					}
 				}
+				var devirtRecv ssa.Value
+				if h == nil && x.Call.IsInvoke() && cfg.Devirt != nil {
+					// a method called through an interface whose dynamic type is evident on this path
+					v := x.Call.Value
+					for k := 0; k < 12; k++ {
+						if ci, isCI := v.(*ssa.ChangeInterface); isCI {
+							v = ci.X
+							continue
+						}
+						if _, isMI := v.(*ssa.MakeInterface); isMI {
+							break
+						}
+						nx := st.alias[v]
+						if nx == nil {
+							break
+						}
+						v = nx
+					}
+					if mi, isMI := v.(*ssa.MakeInterface); isMI && curProg != nil {
+						if m := curProg.SSA.LookupMethod(mi.X.Type(), x.Call.Method.Pkg(), x.Call.Method.Name()); m != nil && len(m.Blocks) > 0 && cfg.Devirt(m) {
+							h, devirtRecv = m, mi.X
+						}
+					}
+				}
 				maxDepth := 5
 				if cfg.MaxDepth > 0 {
 					maxDepth = cfg.MaxDepth
 				}
-				if h == nil || len(h.Blocks) == 0 || len(stack) >= maxDepth || cfg.Inline != nil && h.Synthetic == "" && !cfg.Inline(h) {
+				if h == nil || len(h.Blocks) == 0 || len(stack) >= maxDepth || devirtRecv == nil && cfg.Inline != nil && h.Synthetic == "" && !cfg.Inline(h) {
 					if len(st.fmem) > 0 || len(st.fvals) > 0 {
 						_, isBuiltin := x.Call.Value.(*ssa.Builtin)
 						if sc := StaticCallee(x); !isBuiltin && (sc == nil || curProgRoot(sc)) {
@@ -1472,6 +1552,9 @@ func ConcPaths(fn *ssa.Function, cfg ConcCfg) (seqs []string, truncated bool) {
 				}
 				ns := st.clone()
 				args := Args(x)
+				if devirtRecv != nil {
+					args = append([]ssa.Value{devirtRecv}, x.Call.Args...)
+				}
 				for ai, a := range args {
 					if ai >= len(h.Params) {
 						break
@@ -2029,6 +2112,8 @@ func constTableLookup(st *ConcState, tbl, key ssa.Value) (v ssa.Value, found, kn
 		g = x
 	case *ssa.UnOp:
 		g, _ = x.X.(*ssa.Global)
+	case *ssa.MakeMap:
+		return localMapLookup(st, x, key)
 	}
 	if g == nil {
 		return nil, false, false
@@ -2052,6 +2137,45 @@ func constTableLookup(st *ConcState, tbl, key ssa.Value) (v ssa.Value, found, kn
 			}
 		}
 		return nil, false, false
+	}
+	return nil, false, true
+}
+
+// localMapLookup: mk is a map built right where it is declared (a literal: updates with constant keys only) that never
+// leaves its function and is only consulted afterwards; the entry under an evident key.
+func localMapLookup(st *ConcState, mk *ssa.MakeMap, key ssa.Value) (v ssa.Value, found, known bool) {
+	if mk.Referrers() == nil {
+		return nil, false, false
+	}
+	kv, ok := st.eval(key, 0)
+	if !ok {
+		return nil, false, false
+	}
+	var hit ssa.Value
+	for _, r := range *mk.Referrers() {
+		switch x := r.(type) {
+		case *ssa.MapUpdate:
+			if x.Map != ssa.Value(mk) || x.Block() != mk.Block() {
+				return nil, false, false // updated later on / stored as a value of another map
+			}
+			k, isC := ConstInt(x.Key)
+			if !isC {
+				return nil, false, false
+			}
+			if k == kv {
+				hit = x.Value
+			}
+		case *ssa.Lookup:
+			if x.X != ssa.Value(mk) {
+				return nil, false, false
+			}
+		case *ssa.DebugRef:
+		default:
+			return nil, false, false // handed on: someone else may update it
+		}
+	}
+	if hit != nil {
+		return hit, true, true
 	}
 	return nil, false, true
 }
@@ -2132,6 +2256,43 @@ func allocEscapes(a *ssa.Alloc) bool {
 	esc := a.Heap || !addrOnlyDeref(a, 0)
 	allocEscMemo[a] = esc
 	return esc
+}
+
+// localArrElem: addr is the address of an element of a local array variable whose address never leaves its function;
+// pre is the key prefix of all its elements, key that of this element ("" when the index is not evident).
+func localArrElem(st *ConcState, addr ssa.Value) (pre, key string, ok bool) {
+	ia, isIA := addr.(*ssa.IndexAddr)
+	if !isIA {
+		return "", "", false
+	}
+	v := ia.X
+	for k := 0; k < 8; k++ {
+		if nx := st.alias[v]; nx != nil {
+			v = nx
+			continue
+		}
+		break
+	}
+	varargs := false
+	if sl, isSl := v.(*ssa.Slice); isSl && sl.Low == nil && sl.High == nil {
+		// the argument list of a variadic call: the array behind it is written once, where the call is made
+		if a2, isA2 := sl.X.(*ssa.Alloc); isA2 && a2.Comment == "varargs" {
+			v, varargs = a2, true
+		}
+	}
+	a, isA := v.(*ssa.Alloc)
+	if !isA {
+		return "", "", false
+	}
+	if _, isArr := types.Unalias(deref(a.Type())).Underlying().(*types.Array); !isArr || !(varargs || a.Comment == "varargs") && allocEscapes(a) {
+		return "", "", false
+	}
+	pre = fmt.Sprintf("alloc@%p.[", a)
+	allocByKey[fmt.Sprintf("alloc@%p", a)] = a
+	if kv, evident := st.eval(ia.Index, 0); evident {
+		return pre, pre + strconv.FormatInt(kv, 10) + "]", true
+	}
+	return pre, "", true
 }
 
 // addrKey names the memory location addr denotes on this path: the object it is rooted in (an allocation, a
